@@ -807,6 +807,48 @@ func codeProbes(c byte) [][]byte {
 
 var b64 = base64.RawURLEncoding
 
+// ---------------------------------------------------------------------------------------------
+// cost: what ValidateCost (default field cost 1) computes for one connection request
+// ---------------------------------------------------------------------------------------------
+
+var costSchemas = map[int]*graphql.Schema{}
+
+func costSchema(dir int) *graphql.Schema {
+	if s, ok := costSchemas[dir]; ok {
+		return s
+	}
+	field := apifu.Connection(&apifu.ConnectionConfig{
+		NamePrefix: "Thing",
+		Direction:  apifu.ConnectionDirection(dir),
+		CursorType: reflect.TypeOf(0),
+		EdgeCursor: func(edge interface{}) interface{} { return edge.(edgeT).Key },
+		EdgeFields: map[string]*graphql.FieldDefinition{"node": {Type: graphql.IntType, Resolve: func(ctx graphql.FieldContext) (interface{}, error) { return 0, nil }}},
+		ResolveAllEdges: func(ctx graphql.FieldContext) (interface{}, func(a, b interface{}) bool, error) {
+			return []edgeT{}, keyLess, nil
+		},
+	})
+	s, err := graphql.NewSchema(&graphql.SchemaDefinition{Query: &graphql.ObjectType{Name: "Query", Fields: map[string]*graphql.FieldDefinition{"connection": field}}})
+	if err != nil {
+		panic(err)
+	}
+	costSchemas[dir] = s
+	return s
+}
+
+func costCase(dir int, q request) sexp.Node {
+	doc, _ := q.document()
+	var cost int
+	_, errs := graphql.ParseAndValidate(doc, costSchema(dir), nil, graphql.ValidateCost("", nil, -1, &cost, graphql.FieldCost{Resolver: 1}))
+	obs := sexp.None()
+	if len(errs) == 0 {
+		obs = sexp.Some(sexp.Int(cost))
+	}
+	return sexp.T("cost", sexp.T("direction", sexp.Sym(dirNames[dir])),
+		sexp.T("given", sexp.Bool(q.first.mode != 0), sexp.Bool(q.last.mode != 0), sexp.Bool(false), sexp.Bool(false)),
+		sexp.T("first", q.first.sexp()), sexp.T("last", q.last.sexp()),
+		sexp.T("sel", sexp.Bool(q.sel.edges), sexp.Bool(q.sel.pageInfo), sexp.Bool(q.sel.total)), sexp.T("obs", obs))
+}
+
 // hostile cursor strings.  ascii: only strings that survive a JSON round trip unchanged.
 func hostile(r *rng.R, kind string, ascii bool) string {
 	alphabet := "ABCDEFGHIJKLMNOPQRSTUVWXYZabcdefghijklmnopqrstuvwxyz0123456789-_"
@@ -1509,7 +1551,7 @@ func main() {
 		}
 		nLong := 8
 		if h.Thorough() {
-			nLong = 400
+			nLong = 100
 		}
 		for i := 0; i < nLong; i++ {
 			key := allKeys("str")[i%4]
@@ -1530,6 +1572,20 @@ func main() {
 				}
 				return connCase(setup{key: key, edges: shuffle(r, es), policy: r.Intn(5)}, q, r)
 			})
+		}
+
+		// ---- 4e. cost of a connection request (defaultConnectionCost + the edges multiplier), all three
+		// directions, every form of first / last, every selection
+		for dir := 0; dir < 3; dir++ {
+			forms := []countArg{{}, {mode: 1}, val(-3), val(0), val(1), val(2), val(7), val(1000), val(1<<31 - 1)}
+			for _, f := range forms {
+				for _, l := range forms {
+					for _, sel := range selections {
+						dir, f, l, sel := dir, f, l, sel
+						h.Case(func(*rng.R) sexp.Node { return costCase(dir, request{first: f, last: l, sel: sel}) })
+					}
+				}
+			}
 		}
 
 		// ---- 5. random streams
